@@ -263,6 +263,37 @@ def run(F, R):
     R.floor("R03.7", "bodies handling ServerError results", n7, 40)
     R.check(True, "R03.7", "error-results-examined", "-", "%d bodies with ServerError-typed locals examined" % n7, "")
 
+    # ------------------------------------------------------------ R03.8
+    R.rule("R03.8", "error results are never silently dropped (crate-wide, all error types of the library): a Result whose error type is ServerError, Error, "
+                    "InputValueError, ParseRequestError or SchemaError is not consumed by ok() / unwrap_or* / is_ok / is_err, nor matched with an Err side that ignores "
+                    "the payload, except at the sites of the table below (each with the reason the error is legitimately not reported)")
+    DROP_OK = {
+        "guard::{impl}::check::{c} | is_ok": "Guard `or` combinator: the first guard's rejection is replaced by the second guard's verdict",
+        "schema::remove_skipped_selection::is_skipped | unwrap_or_default": "an `if:` value that is not a Boolean was already rejected by validation (ArgumentsOfCorrectType / VariablesInAllowedPosition); defaults to false",
+        "dynamic::subscription::{impl}::collect_streams::{c} | unwrap_or_else": "the error is converted into an error Response for that event, not dropped",
+        "async_graphql_actix_web::subscription::{impl}::start::{c}::{c} | ok": "websocket sub-protocol negotiation: an unknown protocol name is skipped, the next offered one is tried",
+        "async_graphql_axum::subscription::{impl}::from_request_parts::{c}::{c}::{c} | ok": "websocket sub-protocol negotiation: an unknown protocol name is skipped",
+        "async_graphql_poem::subscription::{impl}::from_request::{c}::{c}::{c} | ok": "websocket sub-protocol negotiation: an unknown protocol name is skipped",
+        "async_graphql_warp::subscription::graphql_protocol::{c}::{c}::{c} | ok": "websocket sub-protocol negotiation: an unknown protocol name is skipped",
+    }
+    ERR_RX = r"(ServerError|ParseRequestError|InputValueError|SchemaError|async_graphql::Error|error::Error)"
+    n8 = 0
+    seen8 = set()
+    for b in F.bodies.values():
+        if not b.defp.startswith(("async_graphql::", "async_graphql_axum", "async_graphql_actix_web", "async_graphql_poem", "async_graphql_warp", "async_graphql_rocket")) or "::tests::" in b.defp:
+            continue
+        fnkey = re.sub(r"\{closure#\d+\}", "{c}", re.sub(r"\{impl#\d+\}", "{impl}", b.defp.replace("async_graphql::", "")))
+        for c in b.calls():
+            if c.callee and re.search(r"core::result::\{impl#\d+\}::(ok|unwrap_or_default|unwrap_or|unwrap_or_else|is_ok|is_err)$", c.callee) and c.argtys and re.search(ERR_RX, c.argtys[0]):
+                n8 += 1
+                key = "%s | %s" % (fnkey, c.callee.split("::")[-1])
+                seen8.add(key)
+                R.check(key in DROP_OK, "R03.8", "error-dropped:" + key, c.where(), DROP_OK.get(key, ""),
+                        "the error of a %s is discarded with %s: the failure is turned into a default / absent value and no error reaches the response" % (c.argtys[0][:70], c.callee.split("::")[-1]))
+        if "ServerError" not in " ".join(b.locals) and re.search(ERR_RX, " ".join(b.locals)):
+            pass
+    R.floor("R03.8", "sites consuming an error result without reporting it (matcher alive)", n8, 1)
+
     # ------------------------------------------------------------ R03.5
     R.rule("R03.5", "guards run before the resolver: in every Object/ComplexObject/SimpleObject/Subscription expansion that "
                     "calls Guard::check, the check dominates the user method call / field read and its Err is propagated")
